@@ -60,7 +60,7 @@ ENC = ("BuildAssembly.remap_to_input_assembly", "BuildAssembly.find_assembly_ove
        "ScaffoldNamer.*", "ChrNamer.*", "Assembly.smart_sort_scaffolds", "AssemblyStats.make_stats", "format.format_agp")
 
 
-from vlib.props.pgen import gen_arbitrary, gen_model, sfx as _sfx, variants as _variants  # noqa: E402
+from vlib.props.pgen import XREGIONS, gen_arbitrary, gen_model, sfx as _sfx, variants as _variants  # noqa: E402
 
 
 def gen_qc(k):
@@ -176,9 +176,10 @@ def conditions(tier):
         t.append(("model_two_cuts_FGF_" + _sfx((), ps), gen_model(n, S_FGF, ((2,), [(0, 0, 2), (1, 0, 1), (2, 0, 0)]), sym_strands=False, pstrands=ps), n, 3000,
                   f"input F G F (forward contigs), two cuts anywhere (a sub-texel contig may straddle one cut while the other contig is cut), three pieces in three painted Pretext scaffolds in reversed order, piece strands {ps}"))
     for ps in ((1, 1, 1, 1), (1, -1, -1, 1), (-1, 1, 1, -1)):
-        n = "m11_x_" + _sfx((), ps)
-        t.append(("model_two_scaffolds_cross_joined_" + _sfx((), ps), gen_model(n, [("S1", "FGF"), ("S2", "FF")], ((1, 1), [(0, 0, 0), (0, 1, 1), (1, 1, 0), (1, 0, 1)]), sym_strands=False, pstrands=ps), n, 6000,
-                  f"inputs F G F and F F, one cut each, pieces cross-joined into two painted Pretext scaffolds, piece strands {ps}"))
+        for rk, rpre in XREGIONS:
+            n = f"m11_x_{rk}_" + _sfx((), ps)
+            t.append((f"model_two_scaffolds_cross_joined_{rk}_" + _sfx((), ps), gen_model(n, [("S1", "FGF"), ("S2", "FF")], ((1, 1), [(0, 0, 0), (0, 1, 1), (1, 1, 0), (1, 0, 1)]), sym_strands=False, pstrands=ps, extra_pre=rpre), n, 3000,
+                      f"inputs F G F and F F, one cut each (cut rows {rk}; the six row combinations cover every cut position), pieces cross-joined into two painted Pretext scaffolds, piece strands {ps}"))
     t.append(("model_one_cut_tagged_pieces", gen_model("m1_tags", [("S1", "FGF"), ("S2", "F")], ((1, 0), [(0, 0, 0), (0, 0, 1), (1, 1, 0)]),
                                                         tags=[("Painted",), ("Painted", "Haplotig"), ("Contaminant",)], sym_strands=False), "m1_tags", 3000,
               "F G F cut once: first piece Painted, second Painted+Haplotig; second input scaffold tagged Contaminant: every output assembly kind occurs"))
